@@ -67,9 +67,11 @@ def run(tier, replay=None):
             kind, detail = classify(r)
             cnt[(c['fam'], kind)] += 1
             distinct.add(c['src'])
+            if r['status'] == 'skipped':
+                continue
             if i in bad:
                 what = kind if kind not in ('compiled', 'rejected') else ('wrote a file although it reported an error' if recs[i]['obs']['wrote'] else 'neither output nor diagnostic')
-                key = "%s:%s" % (kind, detail.split(' in ')[0][:90] if detail else what)
+                key = "%s:%s" % (kind, fuzzlib.stable(detail) if detail else what)
                 chk.violation(key, "xcmp on input %s (%s): %s %s" % (c['id'], c['fam'], what, detail), {"input.x": c['src'].encode('latin-1', 'replace')})
         chk.set("evaluations", len(cases)); chk.set("distinct_nontrivial", len(distinct))
         chk.set("outcomes", {"%s:%s" % k: v for k, v in sorted(cnt.items())})
